@@ -26,7 +26,8 @@ ID = "C17"
 RULE = ("seed envelopes from the description generator (reference encoder, both CWT payload forms) and the byte strings "
         "of tests/test_cbor_out_of_spec.py; for every node of the expanded tree (bstr-wrapped CBOR is expanded; quick tier: at most 300 sampled nodes per seed) "
         "replacement by k of 41 type representatives (quick k=4, thorough all), inflated length fields, plain "
-        "array/map/tag nesting 1..500 and bstr-wrapped try-each/run-sequence nesting 1..64,100,200,300,1000; byte "
+        "array/map/tag nesting 1..500 and bstr-wrapped try-each/run-sequence nesting 1..64,100,200,300,1000; 13 wide "
+        "families (one element kind repeated n and 4n times: step growth and CPU-time growth); byte "
         "level: truncations (all positions for inputs <= 400 B, else 200), edits biased to header bytes, splices; "
         "observed at SuitEnvelopeTagged.from_cbor(b).to_obj(), sampled through SuitEnvelope.load and cmd_parse.main. "
         "distinct = digest of the input bytes; non-trivial = input differs from every seed (all generated inputs)")
@@ -37,7 +38,7 @@ ASSUMPTIONS = ["step counts (PY_START events) are the measure of time proportion
 NSEEDS = {"quick": 112, "thorough": 3000}
 KREP = {"quick": 4, "thorough": len(Hx.REPRESENTATIVES)}
 CAP = {"quick": 36, "thorough": 1500}
-A_LOCAL, B_LOCAL = 400, 20000           # local step budget: A*len + B   (measured max on valid input: 19*len)
+A_LOCAL, B_LOCAL = 100, 20000           # local step budget: A*len + B   (measured max over 150 k inputs: 8.5*len)
 A_GLOBAL, B_GLOBAL = 2500, 200000       # guard-off global budget        (measured max: 111*len)
 GROWTH = 4.0                            # steps/byte at depth 64 may be at most 4x steps/byte at depth 2 (measured 1.8)
 MEM_A, MEM_B = 64, 2 << 20              # tracemalloc peak <= 2 MiB + 64*len
@@ -262,6 +263,10 @@ def run_shard(rec, shard, nshards):
         ladder_guard_off(rec)
     if shard == 1:
         alloc_monitor(rec, inflated_inputs)
+    if shard == 2:
+        _state["steps"] = steps.Steps(core.REPO)
+        wide_ladder(rec)
+        _state["steps"].shutdown()
     rec.samples.append({"seed_envelopes": len(seeds), "inputs_parsed": rec.evaluations,
                         "max_local_steps_per_byte": rec.extra["max_local_steps_per_byte"],
                         "max_case_ms": rec.extra["max_case_ms"]})
@@ -349,6 +354,68 @@ def ladder_guard_off(rec):
                               {"kind": "ladder", "rows": [lo, hi]})
 
 
+WIDE_N = {"quick": (1000, 4000), "thorough": (4000, 16000)}
+WIDE_TIME_N = (4000, 16000)      # CPU-time ratio is only decided where one run takes >= ~50 ms
+STEP_GROWTH = 6.0                # steps(4n)/steps(n): 4 for linear work, 16 for quadratic
+TIME_GROWTH = 10.0               # min CPU time(4n) / max CPU time(n) over repeats: ~4 linear, >= 16 quadratic
+
+
+def wide_ladder(rec):
+    """one element kind repeated n and 4n times: (a) Python-level steps must grow about linearly, (b) for work done
+    below the Python level (dict copies, re-serialisation inside cbor2 ...) the CPU time ratio between two sizes is the
+    observable; it is taken as min(t(4n))/max(t(n)) over repeats so that load can only hide, never fake, a violation"""
+    from suit_generator.suit.envelope import SuitEnvelopeTagged
+    st = _state["steps"]
+    rows = []
+    for name, fam in Hx.WIDE_FAMILIES.items():
+        row = {"family": name}
+        for label, n in zip(("n", "4n"), WIDE_N[rec.tier]):
+            data = fam(n)
+            o = parse_one(rec, data, f"wide:{name}:{n}", "wide")
+            row[f"len_{label}"] = len(data)
+            row[f"outcome_{label}"] = o
+            st.start(None)
+            try:
+                SuitEnvelopeTagged.from_cbor(data).to_obj()
+            except Exception:  # noqa
+                pass
+            finally:
+                st.budget = None
+                row[f"steps_{label}"] = st.count
+        if row["steps_n"] > 200 and row["outcome_n"] == row["outcome_4n"]:
+            g = row["steps_4n"] / row["steps_n"]
+            row["step_growth"] = round(g, 2)
+            if g > STEP_GROWTH:
+                rec.violation("steps-grow-superlinearly-with-width", f"{name}: {row['steps_n']} steps for n="
+                              f"{WIDE_N[rec.tier][0]} but {row['steps_4n']} for 4n ({g:.1f}x): work is not proportional "
+                              "to the input size", {"kind": "wide", "family": name})
+        # CPU time, only for the families where an element is cheap enough to reach sizes with measurable time
+        if row["outcome_n"] == "model":
+            small, large = fam(WIDE_TIME_N[0]), fam(WIDE_TIME_N[1])
+            ts, tl = [], []
+            st.shutdown()
+            for _ in range(2):
+                for data, acc in ((small, ts), (large, tl)):
+                    t0 = time.process_time()
+                    try:
+                        SuitEnvelopeTagged.from_cbor(data).to_obj()
+                    except Exception:  # noqa
+                        pass
+                    acc.append(time.process_time() - t0)
+            if max(ts) >= 0.02:
+                ratio = min(tl) / max(ts)
+                row["cpu_time_ratio_16000_vs_4000"] = round(ratio, 1)
+                row["cpu_s"] = [round(max(ts), 3), round(min(tl), 3)]
+                if ratio > TIME_GROWTH:
+                    rec.violation("cpu-time-grows-superlinearly-with-width",
+                                  f"{name}: CPU time {max(ts):.2f}s for {WIDE_TIME_N[0]} elements ({len(small)} B) but "
+                                  f"{min(tl):.2f}s for {WIDE_TIME_N[1]} ({len(large)} B): {ratio:.0f}x for 4x the input",
+                                  {"kind": "wide", "family": name})
+        rows.append(row)
+        rec.count("wide-families")
+    rec.extra["wide_ladder"] = rows
+
+
 def alloc_monitor(rec, inputs):
     if not inputs:
         return
@@ -372,6 +439,8 @@ def replay(rec, case):
     signal.signal(signal.SIGALRM, lambda *_: (_ for _ in ()).throw(CaseTimeout()))
     if case.get("kind") == "ladder":
         ladder_guard_off(rec)
+    elif case.get("kind") == "wide":
+        wide_ladder(rec)
     elif case.get("kind") == "alloc":
         alloc_monitor(rec, [bytes.fromhex(case["input"])])
     elif case.get("kind") == "file-route":
@@ -387,6 +456,8 @@ def finish(merged, tier, seed):
     ex = merged["extra"]
     if cnt.get("guard-off-ladder-inputs", 0) < 15:
         merged["inconclusive"].append("guard-off ladder incomplete")
+    if cnt.get("wide-families", 0) < len(Hx.WIDE_FAMILIES):
+        merged["inconclusive"].append("wide ladder incomplete")
     if cnt.get("wrapped-nesting-depths", 0) < 100:
         merged["inconclusive"].append("wrapped nesting ladder incomplete")
     for k in ("kind:type", "kind:inflate", "kind:nest-plain", "kind:bytes", "tracemalloc-sampled", "file-route:load",
@@ -403,6 +474,7 @@ def finish(merged, tier, seed):
         "growth_try_depth2_to_64": (ex.get("growth_try_depth2_to_64") or [None])[0],
         "growth_run_depth2_to_64": (ex.get("growth_run_depth2_to_64") or [None])[0],
         "alloc_monitor": (ex.get("alloc_monitor") or ["not run"])[0],
+        "wide_ladder": (ex.get("wide_ladder") or [[]])[0],
     }
     return out
 
